@@ -283,6 +283,15 @@ def min_rel_gap(c, only_requested=False):
     return best
 
 
+def threshold_tie(c, lo=Fr(1, 10**14), hi=Fr(3, 10**10)):
+    """True if some pair of neighbouring exact candidates is separated by a relative distance inside
+    (lo, hi), i.e. within two decades of the merge threshold 2e-12 or of the evaluation tolerance 1e-10:
+    there the float comparisons `> 2e-12*duration` / `<= 1e-10` may legitimately fall either way."""
+    s, _ = exact_candidates(c)
+    D = Fr(c["D"])
+    return any(lo < (b - a) / D < hi for a, b in zip(s, s[1:]))
+
+
 # ------------------------------------------------------------------ stubbed back-end runs
 HOLDER: dict = {}
 
